@@ -348,6 +348,7 @@ func validateCoverage(c *Ctx, m string, wantFields int) {
 			}
 		}
 	}
+	validatorsOf := map[string][]*ssa.Function{}
 	for i := 0; i < st.NumFields(); i++ {
 		f := st.Field(i).Name()
 		calls := byField[f]
@@ -383,6 +384,7 @@ func validateCoverage(c *Ctx, m string, wantFields int) {
 				}
 			}
 		}
+		validatorsOf[f] = candidates
 		// the kind-specific rule must be satisfied by one of the validators the field is handed to; when none
 		// satisfies it, the first one's failures are reported
 		for ci, val := range candidates {
@@ -422,9 +424,13 @@ func validateCoverage(c *Ctx, m string, wantFields int) {
 		r.Require(ok, "A7.validate-cross-field", m+"|signers>=minaccepts", w.Pos(vf.Pos()), "Validate rejects fewer signers than MinAccepts", "no such rejecting comparison")
 	case "stream":
 		// range [0,1] lives in the single validator: require negative and >1 rejections
-		vfee := w.LookupFunc("x/stream/types.validateBaseValidatorFee")
+		// (the validator is whichever function Validate hands the ValidatorFee field to, whatever its name)
 		okNeg, okGT := false, false
-		if vfee != nil {
+		vfees := validatorsOf["ValidatorFee"]
+		if v0 := w.LookupFunc("x/stream/types.validateBaseValidatorFee"); v0 != nil && len(vfees) == 0 {
+			vfees = append(vfees, v0)
+		}
+		for _, vfee := range vfees {
 			for _, b := range vfee.Blocks {
 				iff, ok := b.Instrs[len(b.Instrs)-1].(*ssa.If)
 				if !ok {
